@@ -64,12 +64,15 @@ def addPadding (s : List Char) : List Char :=
   let w := s.length % 8
   if w ≠ 0 then s ++ List.replicate (8 - w) '=' else s
 
-/-- `Base32Decoder.Decode` -/
-def base32Decode (s : List Char) (custom : Option (List Char)) : R Bytes :=
+/-- `Base32Decoder.Decode` (repaired: only the canonical encoding is accepted — the decoded bytes
+must re-encode to the input without its `=` padding). -/
+def base32Decode (s : List Char) (custom : Option (List Char)) : R Bytes := do
   let d := addPadding s
   let d := match custom with
     | some a => translate a b32Std d
     | none => d
-  b32decodeStd d
+  let dec ← b32decodeStd d
+  if base32EncodeNoPad dec custom != rstripChar '=' s then throw .value
+  pure dec
 
 end BipVerif.Model
